@@ -5,6 +5,7 @@
 // is_special_domain / is_tld / is_utf8_domain called on L and D, then the policy formula.
 #include "../harness/rc_glue.hpp"
 #include "../harness/addrcore.hpp"
+#include "../harness/litshapes.hpp"
 
 using namespace vf;
 extern "C" const vapi dflt_api;
@@ -105,6 +106,13 @@ static void stage_lengths(Run &R) {
     R.space("C01 local parts of 58..72 octets in 7 word shapes x 5 domains; '@' placement shapes", total);
 }
 
+// the address literals enumerated for C05, as domain parts of whole addresses
+static void stage_literals(Run &R) {
+    uint64_t idx = 0, total = 0; int dm = K_->default_mask();
+    auto go = [&](const Bytes &l) -> bool { total++; if ((int) (idx++ % R.a.nworkers) != R.a.worker) return true; return run_one(R, (total % 5 == 0 ? "\"q q\"@" : "u@") + l, dm); };
+    if (!lit::shapes(R.a.thorough, go)) return;
+    R.space("C01 the enumerated address-literal texts of C05 (IPv6 shapes, octet values, longest spellings, every byte in the tag, out-of-range octets, bytes around the brackets) as domain part", total);
+}
 static void stage_random(Run &R) {
     uint64_t n = 0, discr0 = R.classes["mode-discriminating-local-part"];
     rc_run(R, "C01 generated addresses: model, composition and high-level call agree", 4.0, [&](Src &s) -> std::optional<Failure> {
@@ -125,7 +133,7 @@ static void stage_corpus(Run &R) {
 
 #ifndef VF_FUZZ
 int main(int argc, char **argv) {
-    return std_main(argc, argv, "C01", {{"bounded", stage_bounded}, {"lengths", stage_lengths}, {"random", stage_random}, {"corpus", stage_corpus}},
+    return std_main(argc, argv, "C01", {{"bounded", stage_bounded}, {"lengths", stage_lengths}, {"random", stage_random}, {"literals", stage_literals}, {"corpus", stage_corpus}},
         [](Run &R, const Case &c) { return check_one(R, c.getb("addr"), (int) c.geti("mask")); }, [] { return g_case; },
         [](Run &R) { K_ = new Core(&dflt_api); return K_->init(R.a.datadir); }, [] { delete K_; });
 }
